@@ -84,6 +84,18 @@ func GenesisFor(profile string, r *rand.Rand) GenesisCfg {
 		cfg.House.HouseParticipationFee = sdkmath.LegacyMustNewDecFromStr(pick(r, []string{"0", "0.99", "1", "1.5", "3", "0.999999999999999999", "0.5"}))
 		cfg.House.MaxWithdrawalCount = pick(r, []uint64{1, 18446744073709551615})
 	}
+	if profile == "tiny" {
+		// small integers everywhere: a wager is split over many participations holding a handful of tokens each, so
+		// the rounding of every partial fill matters (this is what exhibits the carry drift D3)
+		min := pick(r, []int64{2, 3, 5})
+		cfg.Balance = 5_000_000
+		cfg.Bet.Constraints.MinAmount = sdkmath.NewInt(min)
+		cfg.Bet.Constraints.Fee = sdkmath.NewInt(pick(r, []int64{0, 1}))
+		cfg.Orderbook.MaxOrderBookParticipations = pick(r, []uint64{5, 8, 100})
+		cfg.Orderbook.RequeueThreshold = pick(r, []uint64{0, 0, 1})
+		cfg.House.MinDeposit = sdkmath.NewInt(2)
+		cfg.House.HouseParticipationFee = sdkmath.LegacyMustNewDecFromStr(pick(r, []string{"0", "0.5", "0"}))
+	}
 	cfg.Subaccount.WagerEnabled = r.Intn(10) != 0
 	cfg.Subaccount.DepositEnabled = r.Intn(10) != 0
 	if profile == "mint" {
@@ -150,7 +162,12 @@ func (g *Gen) user() int64 { return int64(g.r.Intn(len(g.c.Acc))) }
 var oddsChoices = []string{"1.5", "2", "1.333333333333333333", "1.01", "3.7", "10", "1.25", "1.1", "2.5", "1.4", "7.77", "1.99", "1.666666666666666667"}
 var multChoices = []string{"1", "1", "0.5", "0.25", "0.333333333333333333", "0.9", "0.1", "0.75"}
 
+var tinyOdds = []string{"3", "2", "1.5", "5", "1.25", "2.5", "1.2", "3", "2"}
+
 func (g *Gen) oddsVal() *big.Int {
+	if g.profile == "tiny" && g.chance(0.9) {
+		return decFromStr(pick(g.r, tinyOdds))
+	}
 	switch {
 	case g.chance(0.01):
 		return decFromStr("1.000000000000000001")
@@ -174,6 +191,9 @@ func (g *Gen) oddsVal() *big.Int {
 }
 
 func (g *Gen) mult() *big.Int {
+	if g.profile == "tiny" && g.chance(0.85) {
+		return decFromStr("1")
+	}
 	if g.chance(0.15) {
 		m := new(big.Int).Rand(g.r, prec)
 		m.Add(m, big.NewInt(1))
@@ -216,6 +236,9 @@ func sdkAcc(a string) sdk.AccAddress { return sdk.MustAccAddressFromBech32(a) }
 // amount scale for this history: small amounts hit rounding boundaries, large ones the default regime
 func (g *Gen) scale() int64 {
 	min := g.c.Cfg.Bet.Constraints.MinAmount.Int64()
+	if g.profile == "tiny" {
+		return pick(g.r, []int64{min, min, 2 * min, 7, 12})
+	}
 	return pick(g.r, []int64{min, min, min * 3, min*10 + 7, 100000 + min, 1000000 + min})
 }
 
@@ -324,6 +347,9 @@ func (g *Gen) genDeposit() Op {
 	amt := sc/2 + g.r.Int63n(sc*4+1)
 	if g.chance(0.05) {
 		amt = g.c.Cfg.House.MinDeposit.Int64() + int64(g.r.Intn(3)) - 1
+	}
+	if g.profile == "tiny" && g.chance(0.9) {
+		amt = 2 + int64(g.r.Intn(11))
 	}
 	dep := int64(-1)
 	ky := g.kycFor(signer)
@@ -436,6 +462,54 @@ func (g *Gen) boundaryAmount(m *gMarket, sel int64, oddsVal, mult *big.Int) (int
 	return stake.Int64() + g.c.Cfg.Bet.Constraints.Fee.Int64(), true
 }
 
+// spanAmount picks a wager whose payout profit equals (or is next to) the liquidity available in the first k
+// participations of the selected outcome's queue, so that the bet is split over k partial fills.
+func (g *Gen) spanAmount(m *gMarket, sel int64, oddsVal, mult *big.Int) (int64, bool) {
+	ctx := g.c.Ctx()
+	boe, found := g.c.App.OrderbookKeeper.GetOrderBookOddsExposure(ctx, marketUID(m.uid), oddsUID(sel))
+	if !found || len(boe.FulfillmentQueue) == 0 {
+		return 0, false
+	}
+	om1 := new(big.Int).Sub(oddsVal, prec)
+	if om1.Sign() <= 0 {
+		return 0, false
+	}
+	k := 1 + g.r.Intn(len(boe.FulfillmentQueue))
+	tot := big.NewInt(0)
+	for _, idx := range boe.FulfillmentQueue[:k] {
+		p, found := g.c.App.OrderbookKeeper.GetOrderBookParticipation(ctx, marketUID(m.uid), idx)
+		if !found {
+			continue
+		}
+		pes, _ := g.c.App.OrderbookKeeper.GetExposureByOrderBookAndParticipationIndex(ctx, marketUID(m.uid), idx)
+		exp := big.NewInt(0)
+		for _, e := range pes {
+			if e.OddsUID == oddsUID(sel) {
+				exp = e.Exposure.BigInt()
+			}
+		}
+		av := new(big.Int).Mul(mult, p.CurrentRoundLiquidity.BigInt())
+		av.Sub(av, new(big.Int).Mul(exp, prec))
+		av.Quo(av, prec)
+		if av.Sign() > 0 {
+			tot.Add(tot, av)
+		}
+	}
+	if tot.Sign() <= 0 {
+		return 0, false
+	}
+	num := new(big.Int).Mul(tot, prec)
+	stake := new(big.Int).Quo(num, om1)
+	if new(big.Int).Mod(num, om1).Sign() != 0 && g.chance(0.5) {
+		stake.Add(stake, big.NewInt(1))
+	}
+	stake.Add(stake, big.NewInt(int64(pick(g.r, []int{0, 0, 0, -1, 1}))))
+	if !stake.IsInt64() || stake.Int64() <= 0 {
+		return 0, false
+	}
+	return stake.Int64() + g.c.Cfg.Bet.Constraints.Fee.Int64(), true
+}
+
 // bettable: active, not past its end, with at least one participation
 func (g *Gen) bettableMarket() *gMarket {
 	var l []*gMarket
@@ -487,6 +561,12 @@ func (g *Gen) genWager() Op {
 		if a, ok := g.boundaryAmount(m, sel, ov, mu); ok {
 			amt = a
 			g.stats["wager_boundary"]++
+		}
+	}
+	if g.profile == "tiny" && g.chance(0.7) {
+		if a, ok := g.spanAmount(m, sel, ov, mu); ok {
+			amt = a
+			g.stats["wager_span"]++
 		}
 	}
 	if g.chance(0.03) {
